@@ -8,18 +8,23 @@ CONSTANTS
   InitSizes,   \* tree sizes at the start of a run
   MaxRejects   \* simulation: budget of polls answered with a tree head that is not bigger
 
-\* Continuous runs start inside the tree (StartIndex <= the end of the range after Prepare); see DESIGN.md C16, limits.
 EffEnd(c) == IF c.end = 0 \/ c.end > c.init THEN c.init ELSE c.end
-InDomain(c) == c.cont => c.start <= EffEnd(c)
 \* EndIndex > tree size behaves as EndIndex = 0: keep one representative
 Canonical(c) == c.end <= c.init
 
 MCConfigs == {c \in [start : 0..MaxSize, end : 0..MaxSize, batch : Batches, nw : 1..NW, cont : BOOLEAN, init : InitSizes] :
-                 InDomain(c) /\ Canonical(c)}
+                 Canonical(c)}
 \* plus a few with EndIndex beyond the tree (clipped by Prepare)
 ClippedConfigs == {c \in [start : {0, 1}, end : {MaxSize}, batch : Batches, nw : {NW}, cont : BOOLEAN, init : InitSizes] :
-                     c.init < MaxSize /\ InDomain(c)}
+                     c.init < MaxSize}
 AllConfigs == MCConfigs \cup ClippedConfigs
+
+\* Continuous runs that start beyond the end of the range the first tree head gives (StartIndex > tree size, or
+\* EndIndex < StartIndex) are part of the model (the fetcher waits until the tree has grown past StartIndex), but the
+\* code is known to deviate there (it rewinds to EndIndex); the harness probes that class separately
+\* (TestBeyondTree), the replayed scripts stay inside.
+InDomain(c) == c.cont => c.start <= EffEnd(c)
+SimConfigs == {c \in AllConfigs : InDomain(c)}
 
 ErrLabels == {"429", "5xx", "net", "unavail"}
 OneErr == {"5xx"}
